@@ -94,12 +94,15 @@ inductive Op (α : Type) where
   | resize (k : Nat)  -- requires k <= n
   | set (i : Nat) (x : α)  -- requires i < size
   | fill (x : α)
+  | assignFrom (o : State α)  -- `*this = other` (copy/move assignment, or a freshly constructed temporary); `other`
+                              -- must be a valid vector of the same capacity
 deriving Repr
 
 def Op.ok (n : Nat) (s : State α) : Op α → Bool
   | .push _ => s.size < n
   | .resize k => k ≤ n
   | .set i _ => i < s.size
+  | .assignFrom o => o.storage.length == n && o.size ≤ n
   | _ => true
 
 def step (n : Nat) (s : State α) (o : Op α) : State α :=
@@ -111,6 +114,7 @@ def step (n : Nat) (s : State α) (o : Op α) : State α :=
     | .resize k => resize s k
     | .set i x => set s i x
     | .fill x => fill s x
+    | .assignFrom o => o            -- the implicitly generated assignment copies `storage_` and `size_`
   else s
 
 def run (n : Nat) (s : State α) (ops : List (Op α)) : State α := ops.foldl (step n) s
